@@ -76,6 +76,14 @@ Theorem C19_cache_collision_refuted :
 Proof. exact cache_collision. Qed.
 Print Assumptions C19_cache_collision_refuted.
 
+(* (T) BasicEmbeddingsIndex.search in the current source has the shape the models assume: the
+   vector it searches with is assigned only from an awaited _batch_get_embeddings(text) /
+   _get_embeddings([text]) and search() reads no other instance state and writes none (a memo in
+   front of the embedding calls, for instance, makes this obligation fail) *)
+Theorem C19_search_shape_in_source : search_shape_as_modelled = true.
+Proof. exact eq_refl. Qed.
+Print Assumptions C19_search_shape_in_source.
+
 (* (T) the cache keys of the current source contain the identity of the index's embedding
    model (read from cache.py by the translator) *)
 Theorem C19_cache_key_includes_model_in_source : cache_key_includes_model = true.
